@@ -82,3 +82,69 @@ def instantiation_normalisers_agree(ctx, clause):
                "both serialisers compare statement properties with the same function of the configured instantiation property"
                if ok else "ShExC compares against %s(instantiation property) but SHACL against %s(...): the two outputs "
                           "recognise different spellings of the option" % (sorted(a) or ["id"], sorted(b) or ["id"]))]
+
+
+def every_yielded_item_is_kept(ctx, clause, funcqual, what):
+    """A collecting loop `for x in <producer>: <list>.append(x)` keeps every item: no continue / break / return in the loop, and
+    the append is not under a condition.  Which items would be skipped otherwise depends on the order in which they arrive."""
+    f = ctx.p.func(funcqual)
+    obs = []
+    loops_ = [x for x in walk_own(f.node) if isinstance(x, ast.For)]
+    if not loops_:
+        raise AnalysisError("collecting loop not found in %s" % funcqual)
+    for lp in loops_:
+        esc = [y for y in ast.walk(lp) if isinstance(y, (ast.Continue, ast.Break, ast.Return))]
+        appends = [s for s in lp.body if isinstance(s, ast.Expr) and isinstance(s.value, ast.Call) and isinstance(s.value.func, ast.Attribute)
+                   and s.value.func.attr in ("append", "add") and any(isinstance(a, ast.Name) and isinstance(lp.target, ast.Name) and a.id == lp.target.id
+                                                                       for a in s.value.args)]
+        # a store into a dictionary keeps the item too, unless it is keyed by the shape label (labels are not injective:
+        # two classes with the same local name share one)
+        stores = [s for s in lp.body if isinstance(s, ast.Assign) and len(s.targets) == 1 and isinstance(s.targets[0], ast.Subscript)
+                  and isinstance(s.value, ast.Name) and isinstance(lp.target, ast.Name) and s.value.id == lp.target.id]
+        by_label = [s for s in stores if isinstance(s.targets[0].slice, ast.Attribute) and s.targets[0].slice.attr == "name"]
+        ok = not esc and (len(appends) >= 1 or (stores and not by_label))
+        obs.append(Ob(clause, "R-LOOP", "R-LOOP|keeps-every-item|%s" % f.short, f.loc(lp), ok,
+                      "%s keeps every %s it is handed" % (f.short, what) if ok else
+                      "%s no longer keeps every %s: %s - which ones are dropped depends on the order in which they are produced" % (
+                          f.short, what, ("`%s` inside the loop" % type(esc[0]).__name__.lower()) if esc else
+                          ("it is stored under its label (`%s`), which two different classes can share" % norm(by_label[0])[:50] if by_label else
+                           "the item is not appended unconditionally"))))
+    return obs
+
+
+def one_shape_per_class(ctx, clause):
+    """The shexing strategies turn the class profile into shapes with one outer loop over the classes: that loop yields a
+    shape in every iteration - no continue / break / return at its own level and a yield that is not under a condition -
+    so a class of the profile (with or without instances) is never skipped."""
+    obs = []
+    for c in ctx.p.classes.values():
+        m = c.methods.get("_yield_base_shapes_direction_aware")
+        if m is None or is_stub(m):
+            continue
+        outer = [s for s in m.node.body if isinstance(s, ast.For)]
+        if len(outer) != 1:
+            raise AnalysisError("outer class loop of %s not found" % m.short)
+        lp = outer[0]
+
+        def own_level(stmts):
+            for st in stmts:
+                yield st
+                if isinstance(st, (ast.If, ast.With, ast.Try)):
+                    for blk in (getattr(st, "body", []), getattr(st, "orelse", []), getattr(st, "finalbody", [])):
+                        yield from own_level(blk)
+                    for h in getattr(st, "handlers", []):
+                        yield from own_level(h.body)
+        esc = [st for st in own_level(lp.body) if isinstance(st, (ast.Continue, ast.Break, ast.Return))]
+        top_yields = [st for st in lp.body if isinstance(st, ast.Expr) and isinstance(st.value, ast.Yield)]
+        ok = not esc and len(top_yields) == 1
+        obs.append(Ob(clause, "R-LOOP", "R-LOOP|one-shape-per-class|%s" % m.short, m.loc(lp), ok,
+                      "%s yields one shape for every class of the profile" % m.short if ok else
+                      "%s can skip a class of the profile (%s): a selected class gets no shape, or a requested class without instances "
+                      "loses its empty shape" % (m.short, ("`%s` at the level of the class loop" % type(esc[0]).__name__.lower()) if esc else
+                                                 "the yield is not unconditional")))
+    return obs
+
+
+def is_stub(m):
+    body = [s for s in m.node.body if not (isinstance(s, ast.Expr) and isinstance(s.value, ast.Constant))]
+    return len(body) == 1 and isinstance(body[0], ast.Raise)
